@@ -337,7 +337,7 @@ func runC16Child(env *Env, job *c16Job, n int) c16Result {
 	for i, a := range job.Argv {
 		if strings.HasPrefix(a, "@idlist:") {
 			p := filepath.Join(dir, "ids.txt")
-			os.WriteFile(p, []byte(strings.ReplaceAll(a[len("@idlist:"):], ",", "\n")+"\n"), 0o644)
+			os.WriteFile(p, []byte(strings.ReplaceAll(a[len("@idlist:"):], ",", " \n\t")+"\n"), 0o644) // blanks around the ids
 			job.Argv[i] = p
 		}
 	}
@@ -372,6 +372,8 @@ func runC16Child(env *Env, job *c16Job, n int) c16Result {
 	}
 	return res
 }
+
+var c16Command = map[string]string{"grep": "obigrep", "annot": "obiannotate", "dist": "obidistribute"}
 
 var c16Flags = map[string][]string{"l": {"-l", "--min-length"}, "L": {"-L", "--max-length"}, "c": {"-c", "--min-count"},
 	"C": {"-C", "--max-count"}, "s": {"-s", "--sequence"}, "D": {"-D", "--definition"}, "I": {"-I", "--identifier"},
@@ -539,7 +541,7 @@ func replayC16(env *Env) {
 		batch := []int{1, 3, 5, 100}[rng.Intn(4)]
 		cpu := []string{"2", "8"}[rng.Intn(2)]
 		job := c16Job{Tool: c.Tool, Recs: data.Fwd, Fastq: fastq, Batch: batch}
-		argv := []string{"obi" + c.Tool, "--max-cpu", cpu, "--batch-size", strconv.Itoa(batch)}
+		argv := []string{c16Command[c.Tool], "--max-cpu", cpu, "--batch-size", strconv.Itoa(batch)}
 		cls := c16FamClass(c.Tool, c.Opts, c.V, c.Mode)
 		switch c.Tool {
 		case "grep":
@@ -649,6 +651,214 @@ func replayC16(env *Env) {
 			env.sample(map[string]any{"argv": argv, "level": "library", "delivered": c16IdsOf(res.Out)})
 		}
 	})
+}
+
+// ------------------------------------------------------------------- binary level (record mode)
+
+// c16Render writes records as FASTA/FASTQ with a JSON header (simple encoding of the input).
+func c16Render(recs []c16Rec, fastq bool) []byte {
+	var b bytes.Buffer
+	for _, r := range recs {
+		if fastq {
+			b.WriteString("@")
+		} else {
+			b.WriteString(">")
+		}
+		b.WriteString(r.Id)
+		if len(r.Attrs) > 0 {
+			m := map[string]interface{}{}
+			for k, v := range r.Attrs {
+				m[k] = c16Untag(v)
+			}
+			j, _ := json.Marshal(m)
+			b.WriteString(" ")
+			b.Write(j)
+		}
+		b.WriteString("\n" + r.Seq + "\n")
+		if fastq {
+			b.WriteString("+\n" + r.Qual + "\n")
+		}
+	}
+	return b.Bytes()
+}
+
+func c16ParseHeader(h string) (string, c16Attrs, error) {
+	id, rest := h, ""
+	if k := strings.IndexAny(h, " \t"); k >= 0 {
+		id, rest = h[:k], strings.TrimSpace(h[k+1:])
+	}
+	attrs := c16Attrs{}
+	if strings.HasPrefix(rest, "{") {
+		dec := json.NewDecoder(strings.NewReader(rest))
+		dec.UseNumber()
+		var m map[string]interface{}
+		if err := dec.Decode(&m); err != nil {
+			return id, attrs, err
+		}
+		for k, v := range m {
+			if n, ok := v.(json.Number); ok {
+				if i, err := n.Int64(); err == nil {
+					attrs[k] = c16Tag(i)
+				} else {
+					f, _ := n.Float64()
+					attrs[k] = c16Tag(f)
+				}
+			} else {
+				attrs[k] = c16Tag(v)
+			}
+		}
+		rest = strings.TrimSpace(rest[dec.InputOffset():])
+	}
+	if rest != "" {
+		attrs["definition"] = "s:" + rest
+	}
+	return id, attrs, nil
+}
+
+// c16ParseSeqFile decodes FASTA or FASTQ text written by the commands.
+func c16ParseSeqFile(text string) ([]c16Rec, error) {
+	out := []c16Rec{}
+	lines := strings.Split(text, "\n")
+	for i := 0; i < len(lines); {
+		l := lines[i]
+		switch {
+		case strings.HasPrefix(l, ">"):
+			id, attrs, err := c16ParseHeader(l[1:])
+			if err != nil {
+				return out, err
+			}
+			i++
+			var sb strings.Builder
+			for i < len(lines) && !strings.HasPrefix(lines[i], ">") {
+				sb.WriteString(strings.TrimSpace(lines[i]))
+				i++
+			}
+			out = append(out, c16Rec{Id: id, Seq: sb.String(), Attrs: attrs})
+		case strings.HasPrefix(l, "@"):
+			if i+3 >= len(lines) {
+				return out, fmt.Errorf("truncated fastq record")
+			}
+			id, attrs, err := c16ParseHeader(l[1:])
+			if err != nil {
+				return out, err
+			}
+			out = append(out, c16Rec{Id: id, Seq: strings.TrimSpace(lines[i+1]), Qual: strings.TrimSpace(lines[i+3]), Attrs: attrs})
+			i += 4
+		case strings.TrimSpace(l) == "":
+			i++
+		default:
+			return out, fmt.Errorf("unparsable line %q", l)
+		}
+	}
+	return out, nil
+}
+
+func c16ReadSeqFile(p string) []c16Rec {
+	b, err := os.ReadFile(p)
+	if err != nil {
+		return []c16Rec{}
+	}
+	r, err := c16ParseSeqFile(string(b))
+	if err != nil {
+		return []c16Rec{{Id: "<unreadable: " + err.Error() + ">", Attrs: c16Attrs{}}}
+	}
+	return r
+}
+
+// runC16Binary runs the real command of bindir on files holding the records of the job.
+func runC16Binary(env *Env, bindir string, job *c16Job, n int) c16Result {
+	dir := filepath.Join(env.scratch(), fmt.Sprintf("c16-bin-%d-%06d", os.Getpid(), n))
+	os.MkdirAll(filepath.Join(dir, "out"), 0o755)
+	defer os.RemoveAll(dir)
+	ext := map[bool]string{true: ".fastq", false: ".fasta"}[job.Fastq]
+	in := filepath.Join(dir, "in"+ext)
+	os.WriteFile(in, c16Render(job.Recs, job.Fastq), 0o644)
+	argv := []string{}
+	for i := 1; i < len(job.Argv); i++ {
+		a := job.Argv[i]
+		switch {
+		case strings.HasPrefix(a, "@idlist:"):
+			p := filepath.Join(dir, "ids.txt")
+			os.WriteFile(p, []byte(strings.ReplaceAll(a[len("@idlist:"):], ",", " \n\t")+"\n"), 0o644)
+			a = p
+		case a == "mates" && i > 0 && job.Argv[i-1] == "--paired-with":
+			a = filepath.Join(dir, "mates"+ext)
+			os.WriteFile(a, c16Render(job.Mates, job.Fastq), 0o644)
+		}
+		argv = append(argv, a)
+	}
+	paired := len(job.Mates) > 0
+	if paired {
+		argv = append(argv, "-o", "kept"+ext)
+	}
+	argv = append(argv, in)
+	res := c16Result{Out: []c16Rec{}, Outm: []c16Rec{}, Pred: []int{}, Files: []c16File{}}
+	for attempt := 0; attempt < 3; attempt++ {
+		os.RemoveAll(filepath.Join(dir, "out"))
+		os.MkdirAll(filepath.Join(dir, "out"), 0o755)
+		cmd := exec.Command(filepath.Join(bindir, job.Argv[0]), argv...)
+		cmd.Dir = filepath.Join(dir, "out")
+		var stdout, stderr bytes.Buffer
+		cmd.Stdout, cmd.Stderr = &stdout, &stderr
+		done := make(chan error, 1)
+		if err := cmd.Start(); err != nil {
+			res.Fatal, res.Msg = 1, err.Error()
+			continue
+		}
+		go func() { done <- cmd.Wait() }()
+		var err error
+		select {
+		case err = <-done:
+		case <-time.After(90 * time.Second):
+			cmd.Process.Kill()
+			<-done
+			res.Hung = true
+			continue
+		}
+		res.Hung = false
+		if err != nil { // a crash that repeats three times is reported
+			tail := stderr.String()
+			if len(tail) > 300 {
+				tail = tail[len(tail)-300:]
+			}
+			res.Fatal, res.Msg = 1, "exit: "+err.Error()+" "+tail
+			continue
+		}
+		res.Fatal, res.Msg, res.Done = 0, "", true
+		switch job.Tool {
+		case "grep":
+			if paired {
+				res.Out = c16ReadSeqFile(filepath.Join(cmd.Dir, "kept_R1"+ext))
+				res.Outm = c16ReadSeqFile(filepath.Join(cmd.Dir, "kept_R2"+ext))
+			} else {
+				res.Out, err = c16ParseSeqFile(stdout.String())
+			}
+		case "annot":
+			res.Out, err = c16ParseSeqFile(stdout.String())
+		case "dist":
+			rank := map[string]int{}
+			for i, r := range job.Recs {
+				rank[r.Id] = i + 1
+			}
+			filepath.Walk(cmd.Dir, func(p string, info os.FileInfo, e error) error {
+				if e != nil || info.IsDir() {
+					return nil
+				}
+				rel, _ := filepath.Rel(cmd.Dir, p)
+				f := c16File{Name: rel, Ranks: []int{}, Recs: c16ReadSeqFile(p)}
+				for _, r := range f.Recs {
+					f.Ranks = append(f.Ranks, rank[r.Id])
+				}
+				res.Files = append(res.Files, f)
+				return nil
+			})
+		}
+		if err != nil {
+			res.Fatal, res.Msg = 1, "unreadable output: "+err.Error()
+		}
+		return res
+	}
+	return res
 }
 
 // ------------------------------------------------------------------------------- record (T)
@@ -854,13 +1064,20 @@ func recordC16(env *Env) {
 		c16Child(env, jf)
 		return
 	}
+	bindir := env.opt("bindir", "") // set: the events come from the real binaries run on files of 60-400 records
 	parallel(env.n, 0, func(i int) {
 		rng := rand.New(rand.NewSource(env.seed*7919 + int64(i)))
-		serial := i * 100
+		serial := i * 1000
 		nrec := 4 + rng.Intn(12)
+		if bindir != "" {
+			nrec = 60 + rng.Intn(341)
+		}
 		recs := c16RandRecs(rng, nrec, "s", &serial)
 		fastq := rng.Intn(2) == 1
 		batch := []int{1, 2, 3, 7, 1000}[rng.Intn(5)]
+		if bindir != "" {
+			batch = []int{1, 3, 10, 50, 5000}[rng.Intn(5)]
+		}
 		argv := []string{"", "--max-cpu", []string{"2", "3", "8"}[rng.Intn(3)], "--batch-size", strconv.Itoa(batch)}
 		ev := map[string]any{"recs": recs, "fastq": map[bool]int{true: 1, false: 0}[fastq], "batch": batch, "hung": 0, "fatal": 0}
 		job := c16Job{Recs: recs, Fastq: fastq, Batch: batch}
@@ -916,10 +1133,17 @@ func recordC16(env *Env) {
 			}
 			ev["D"], ev["crc"] = D, crc
 		}
-		argv[0] = "obi" + job.Tool
+		argv[0] = c16Command[job.Tool]
 		job.Argv = append([]string{}, argv...)
 		ev["tool"], ev["argv"] = job.Tool, argv
-		res := runC16Child(env, &job, i)
+		var res c16Result
+		if bindir != "" {
+			ev["level"] = "bin"
+			res = runC16Binary(env, bindir, &job, i)
+		} else {
+			ev["level"] = "lib"
+			res = runC16Child(env, &job, i)
+		}
 		if res.Hung {
 			ev["hung"] = 1
 		}
